@@ -11,7 +11,7 @@ def S(*a):
 
 ROWS = {
  # name: overrides
- "eval_quick": dict(acts=S("CvEval"), wts='"none", "const", "gen"'),
+ "eval_quick": dict(acts=S("CvEval"), wts='"none", "const", "gen", "gen2"'),
  "eval_thorough": dict(acts=S("CvEval"), wts='"none", "const", "gen", "gen2"', pts='"gen", "unit"', degs="DegsT", maxnpts=7, breaks="BreaksT"),
  "eval2_thorough": dict(acts=S("CvEval"), wts='"none", "gen"', pts='"gen"', degs="Degs4", maxnpts=8),
  "basis_quick": dict(acts=S("FnBasis")),
